@@ -6,7 +6,23 @@
    All statements are for every model (object graph given by arbitrary functions), every
    expression tree, every start object, name list, target type, fuel, and for both forms of
    the visited key (kf = true: the repaired key with first_element; kf = false: the old key). *)
-From TxV Require Import Core.Base Model.RrelSyntax Model.Rrel Proofs.RrelProofs.
+From TxV Require Import Core.Base Gen.SrcRrel Model.RrelSyntax Model.Rrel Proofs.RrelProofs.
+
+(* ---------------------------------------------------------------- tie to the source
+   Gen/SrcRrel.v is regenerated from textx/scoping/rrel.py on every run (tools/translate/rrel_tr.py,
+   fail closed; it also fingerprints every transcribed method).  The facts it reads - visited key
+   with first_element, `lst[0]`, start_locally before start_at_root, proxy path completed by the
+   target, start_locally/start_at_root of the leaf nodes, consume/fixed flags of `a`, `~a`, `'s'~a`
+   - equal what the model's own functions do. *)
+Theorem C11_source_facts : src_facts = model_facts.
+Proof. exact src_facts_ok. Qed.
+Print Assumptions C11_source_facts.
+
+(* the witness of the repaired defect, for the key form the source has now *)
+Example C11_source_key_finds :
+  find 20 sample (key_has_first src_facts) e_star 1 [[112]%N] (Some s_Mem) false = FObj 2.
+Proof. vm_compute. reflexivity. Qed.
+Print Assumptions C11_source_key_finds.
 
 (* ---------------------------------------------------------------- soundness
    Unconditional: whatever find returns as the resolved object is reachable by one
